@@ -288,8 +288,11 @@ def run_case(case):
         return fail("signal", "clean was killed by signal %d" % -p["rc"])
     # ---- completeness and report, when the environment did not fail
     if batch != "hard" or not fired_hard:
+        # a symbolic link to a regular file is a file under either reading of "file" (the link itself must go, its target
+        # must stay — the latter is part of the safety check above); links to directories and dangling links may stay or go
         left = [rel for rel, val in after.items()
-                if rel.count(os.sep) == 1 and rel.startswith("d" + os.sep) and val[0] == "file" and eligible_name(rel.split(os.sep)[1])]
+                if rel.count(os.sep) == 1 and rel.startswith("d" + os.sep) and eligible_name(rel.split(os.sep)[1])
+                and (val[0] == "file" or (val[0] == "link" and val[1] == tfile))]
         if left:
             return fail("incomplete", "bytecode files left behind without any fault: %r (rc=%d)" % (left, p["rc"]))
         if p["rc"] != 0:
